@@ -191,6 +191,17 @@ pub fn cases(tier: Tier) -> Vec<Case> {
       calls.push((format!("p{i} := ({x}, {y})\nr@ := p{i}?\n{body}.", i = i, x = x, y = y, body = body), match r { Some(v) => Expect::Val(f64s(v)), None => Expect::MustError }));
     }
     out.push(Case { family: "match-tuple", def: String::new(), calls, locus: format!("match-tuple:{}", sel.iter().map(|i| ["vars+guard", "vars-swapped", "var-lit", "lit-var", "repeat", "vars+guard2"][*i]).collect::<Vec<_>>().join(",")) });
+    // the same subjects with their components held in variables (both, the first only, a mutable one): a pattern sees the value, not the reference
+    for (vi, vname) in ["both-variables", "first-variable", "mutable-variables"].iter().enumerate() {
+      let mut calls = vec![];
+      for (i, (x, y)) in [(3i64, 5i64), (5, 3), (2, 2), (0, 4), (4, 0)].iter().enumerate() {
+        let r = reference_t(&armsw, *x, *y);
+        let m = if vi == 2 { "~" } else { "" };
+        let second = if vi == 1 { y.to_string() } else { format!("vy{}", i) };
+        calls.push((format!("{m}vx{i} := {x}\n{m}vy{i} := {y}\np{i} := (vx{i}, {second})\nr@ := p{i}?\n{body}.", m = m, i = i, x = x, y = y, second = second, body = body), match r { Some(v) => Expect::Val(f64s(v)), None => Expect::MustError }));
+      }
+      out.push(Case { family: "match-tuple", def: String::new(), calls, locus: format!("match-tuple:{}:subject-from-{}", sel.iter().map(|i| ["vars+guard", "vars-swapped", "var-lit", "lit-var", "repeat", "vars+guard2"][*i]).collect::<Vec<_>>().join(","), vname) });
+    }
   }
   // (E) match on a vector subject
   let p5 = vec![
@@ -260,6 +271,17 @@ pub fn cases(tier: Tier) -> Vec<Case> {
         calls.push((format!("q{k}<shape> := :{name}({x})\nr@ := q{k}?\n{body}.", k = k, name = ["circle", "square"][*variant], x = x, body = body), e));
       }
       out.push(Case { family: "match-enum-payload", def: "<shape> := :circle<f64> | :square<f64>".into(), calls, locus: format!("match-enum-payload:{}", sel.iter().map(|i| pool2[*i].1).collect::<Vec<_>>().join(",")) });
+      // the payload given by a variable (immutable / mutable) instead of a literal
+      for (vi, vname) in ["variable", "mutable-variable"].iter().enumerate() {
+        let mut calls = vec![];
+        for (k, (variant, x)) in [(0usize, 1i64), (0, 2), (0, 3), (1, 2), (1, 4)].iter().enumerate() {
+          let first = sel.iter().find_map(|i| arm2(*i, *variant, *x));
+          let e = if !has_wild && !names_covered { Expect::MustError }
+                  else { match first { Some(v) if has_wild || totally_covered => Expect::Val(f64s(v)), Some(v) => Expect::ValOrError(f64s(v)), None => Expect::MustError } };
+          calls.push((format!("{m}z{k} := {x}\nq{k}<shape> := :{name}(z{k})\nr@ := q{k}?\n{body}.", m = if vi == 1 { "~" } else { "" }, k = k, name = ["circle", "square"][*variant], x = x, body = body), e));
+        }
+        out.push(Case { family: "match-enum-payload", def: "<shape> := :circle<f64> | :square<f64>".into(), calls, locus: format!("match-enum-payload:{}:payload-from-{}", sel.iter().map(|i| pool2[*i].1).collect::<Vec<_>>().join(","), vname) });
+      }
     }
     // two enums of one session that share their variant names: a value of either must still match its arms
     for (fam, d1, d2, subj, body, exp) in [
@@ -325,6 +347,43 @@ pub fn cases(tier: Tier) -> Vec<Case> {
       let deep = tier.pick(2000u64, 100000u64);
       calls.push((format!("st({}u64, 0u64)", deep), Expect::Val((deep * (deep + 1) / 2).to_string())));
       out.push(Case { family: "recursion", def, calls, locus: format!("recursion:tail-accumulator:{}{}", ["wild-base", "named-base"][bi], ["+wild-step", "+named-step", "+renamed-step"][si]) });
+    }
+  }
+  // ---- arms whose body cannot be evaluated (division by zero, index out of range, overflow) placed after - or before - the arm that wins:
+  // only the body of the first matching arm is evaluated, so a failing body in a later arm must not matter, and a failing first arm is an error
+  {
+    // (text, matches x?, fails when evaluated?, value)
+    struct FA { text: &'static str, name: &'static str, applies: fn(i64) -> bool, fails: bool, val: fn(i64) -> i64 }
+    let pool: Vec<FA> = vec![
+      FA { text: "1u8 => 10u8", name: "lit", applies: |x| x == 1, fails: false, val: |_| 10 },
+      FA { text: "n => n / 0u8", name: "div-zero", applies: |_| true, fails: true, val: |_| 0 },
+      FA { text: "n => yy[n + 7u8]", name: "index-out-of-range", applies: |_| true, fails: true, val: |_| 0 },
+      FA { text: "n, n > 1u8 => 250u8 + n * 10u8", name: "guarded-overflow", applies: |x| x > 1, fails: true, val: |_| 0 },
+      FA { text: "n, n < 1u8 => n + 40u8", name: "guarded-var", applies: |x| x < 1, fails: false, val: |x| x + 40 },
+      FA { text: "* => 99u8", name: "wild", applies: |_| true, fails: false, val: |_| 99 },
+    ];
+    for sel in ordered_selections(pool.len(), 3) {
+      if sel.len() < 2 || !sel.iter().any(|i| pool[*i].fails) { continue; }
+      let has_wild = sel.contains(&5);
+      let body = sel.iter().map(|i| format!("  | {}", pool[*i].text)).collect::<Vec<_>>().join("\n");
+      let mut calls = vec![];
+      for x in [0i64, 1, 2] {
+        let first = sel.iter().find(|i| (pool[**i].applies)(x));
+        let e = match first { None => Expect::MustError, Some(i) => if pool[*i].fails { Expect::MustError } else if has_wild { Expect::Val(((pool[*i].val)(x)).to_string()) } else { Expect::ValOrError(((pool[*i].val)(x)).to_string()) } };
+        calls.push((format!("x{x}<u8> := {x}\nr@ := x{x}?\n{body}.", x = x, body = body), e));
+      }
+      out.push(Case { family: "match-failing-arm", def: "yy := [1u8 2u8]".into(), calls, locus: format!("match-failing-arm:{}", sel.iter().map(|i| pool[*i].name).collect::<Vec<_>>().join(",")) });
+      // the same arms as a match-arm function (function bodies do not see globals: the index arm reads a literal matrix)
+      let fbody = glyphs(&sel.iter().map(|i| pool[*i].text.replace("yy[", "[1u8 2u8][")).collect::<Vec<_>>().iter().map(|t| t.as_str()).collect::<Vec<_>>());
+      if !fbody.contains("[1u8 2u8][") {
+        let mut calls = vec![];
+        for x in [0i64, 1, 2] {
+          let first = sel.iter().find(|i| (pool[**i].applies)(x));
+          let e = match first { None => Expect::MustError, Some(i) => if pool[*i].fails { Expect::MustError } else { Expect::Val(((pool[*i].val)(x)).to_string()) } };
+          calls.push((format!("ff({}u8)", x), e));
+        }
+        out.push(Case { family: "fn-failing-arm", def: format!("ff(q<u8>) => <u8>\n{}", fbody), calls, locus: format!("fn-failing-arm:{}", sel.iter().map(|i| pool[*i].name).collect::<Vec<_>>().join(",")) });
+      }
     }
   }
   let deep = tier.pick(100000u64, 1000000u64);
